@@ -255,6 +255,15 @@ theorem newH_distance_one (c s : α) (tet : List (V3 α)) (a : V3 α) (L : α) (
   subst hp
   exact oneH_dist a F.v L hv
 
+/-- one hydrogen lies on the line through the centre along the direction `v` — for three neighbours `v` is
+the normal of the plane through them, so the hydrogen is placed along that normal. -/
+theorem newH_along_direction_one (c s : α) (tet : List (V3 α)) (a : V3 α) (L : α) (F : Frame α) :
+    ∀ p ∈ placeH c s tet a L F 1, cross (p.sub a) F.v = ⟨0, 0, 0⟩ := by
+  intro p hp
+  simp only [placeH, List.mem_singleton] at hp
+  subst hp
+  exact oneH_parallel a F.v L
+
 /-- two hydrogens: squared distance `L²·(c² + s²)` each, and a fixed angle between them -/
 theorem newH_distance_two (c s : α) (tet : List (V3 α)) (a : V3 α) (L : α) (F : Frame α)
     (hv : F.v.norm2 = 1) (hz : F.z.norm2 = 1) (hvz : F.v.dot F.z = 0) :
